@@ -95,6 +95,31 @@ def cmp_expr(kind, got, val, tol=None):
         if isinstance(val, PyRaised): return f'match {got} with Raises {val.exc} => true | _ => false end'
         if kind == 'XDECK': return f'match {got} with Returns g_ => list_eqb gitem_feq g_ {vlib.clist([citem(x) for x in val])} | _ => false end'
         return f'match {got} with Returns g_ => list_eqb gpair_feq g_ {vlib.clist(["(" + cshape(a) + ", " + cshape(b) + ")" for a, b in val])} | _ => false end'
+    if kind in ('XZ', 'XB', 'XOBB'):
+        # round 4 (Gen/Winding.v): outcome Z / outcome bool / outcome (option bbox); TypeError / AttributeError on None is PyNoneError
+        if isinstance(val, PyRaised): return f'match {got} with Raises {val.exc} => true | _ => false end'
+        if kind == 'XZ': return f'match {got} with Returns g_ => Z.eqb g_ ({int(val)})%Z | _ => false end'
+        if kind == 'XB': return f'match {got} with Returns g_ => Bool.eqb g_ {vlib.cbool(bool(val))} | _ => false end'
+        return f'match {got} with Returns g_ => {cmp_expr("OBB", "g_", val)} | _ => false end'
+    if kind in ('MINDIST', 'OXSSS'):
+        # round 4 (Gen/MinDist.v): option (outcome ((dist, t1, t2), (bestAlpha, iterations))) / option (outcome (dist, t1, t2))
+        if kind == 'MINDIST':
+            (d, t1, t2), best, its = val.value, val.best, val.iterations
+            st = f' && match snd g_ with (Some b_, i_) => feq b_ {vlib.fhex(best)} && Z.eqb i_ {its} | _ => false end' if best is not None else \
+                 f' && match snd g_ with (None, i_) => Z.eqb i_ {its} | _ => false end'
+            return (f"match {got} with Some (Returns g_) => (let '(d_, a_, b_) := fst g_ in feq d_ {vlib.fhex(d)} && feq a_ {vlib.fhex(t1)} && feq b_ {vlib.fhex(t2)}){st} | _ => false end")
+        d, t1, t2 = val
+        f = 'feq' if tol is None else f'fclose {vlib.fhex(tol)}'
+        return f"match {got} with Some (Returns g_) => (let '(d_, a_, b_) := g_ in {f} d_ {vlib.fhex(d)} && {f} a_ {vlib.fhex(t1)} && {f} b_ {vlib.fhex(t2)}) | _ => false end"
+    if kind in ('OXLTT', 'OXLIX', 'LIX4'):
+        # round 4 (Gen/CurveCurve.v): option (outcome (list (t1, t2))) / option (outcome (list Intersection)); None = out of fuel, never expected;
+        # LIX4: the dispatch `intersections`, whose result carries the effects only when both operands are curves
+        if kind == 'LIX4' and not val.fuelled: return cmp_expr('LIX', got, val.value, tol)
+        if kind == 'LIX4': val = val.value
+        if isinstance(val, PyRaised): return f'match {got} with Some (Raises {val.exc}) => true | _ => false end'
+        if kind == 'OXLTT': exp, f = vlib.clist([f'({vlib.fhex(a)}, {vlib.fhex(b)})' for a, b in val]), '(fun a b => feq (fst a) (fst b) && feq (snd a) (snd b))'
+        else: exp, f = vlib.clist([f'({vlib.fhex(i.t1)}, {vlib.cpt(i.point)}, {vlib.fhex(i.t2)})' for i in val]), 'ix_feq'
+        return f'match {got} with Some (Returns g_) => list_eqb {f} g_ {exp} | _ => false end'
     if kind == 'LIX':
         items = [f'({vlib.fhex(i.t1)}, {vlib.cpt(i.point)}, {vlib.fhex(i.t2)})' for i in val]
         f = 'ix_feq' if tol is None else f'(ix_fclose {vlib.fhex(tol)})'
@@ -170,6 +195,7 @@ def carg(kind, v):
     if kind == 'COND': return v.coq
     if kind == 'SHAPES': return vlib.clist([cshape(o) for o in v])
     if kind == 'SPLITLIST': return vlib.clist([f'({vlib.csegment(sg)}, {vlib.fhex(t)})' for sg, t in v])
+    if kind in ('RNG3', 'RNG4'): return f'(Ranged {vlib.cseg(v)} {vlib.fhex(v._range[0])} {vlib.fhex(v._range[1])})'     # a curve with its `_range`
     raise ValueError(kind)
 
 
@@ -388,19 +414,43 @@ def g_splitlist_for(rng, path):
 def g_degree(rng): return rng.choice([8, 8.0, float(rng.randint(1, 40)), rng.uniform(0.5, 60), 1.0, 4.0, 16.0, 300.0])
 def g_size(rng): return rng.choice([float(rng.randint(1, 5000)), rng.uniform(0.5, 5000), rng.uniform(-50, 50), 0.0])
 def g_sup(rng): return rng.choice([GS.CIRCULAR_SUPERNESS, rng.uniform(0.1, 1.2), 1.0, 0.0, rng.uniform(-2, 2)])
-GEN = {'S': g_S, 't': g_t, 'angle': g_angle, 'P': g_P, 'M': g_M, 'seg2': g_seg(2), 'seg3': g_seg(3), 'seg4': g_seg(4), 'BB': g_BB, 'OS': g_OS, 'B': g_B,
+# ---- round 4: pairs of curves for the curve-curve subdivision (the second operand is rebuilt from the first in special_args)
+def g_curve(order):
+    def g(rng):
+        r = rng.random()
+        if r < 0.45: pts = [Point(rng.uniform(-300, 300), rng.uniform(-300, 300)) for _ in range(order)]
+        elif r < 0.7: pts = [Point(float(rng.randint(-300, 300)), float(rng.randint(-300, 300))) for _ in range(order)]
+        elif r < 0.8:
+            sc = 10.0 ** rng.uniform(-3, 1.5)
+            pts = [Point(rng.uniform(-sc, sc), rng.uniform(-sc, sc)) for _ in range(order)]
+        elif r < 0.9:    # straight, axis-parallel or nearly: thin boxes
+            o = Point(rng.uniform(-200, 200), rng.uniform(-200, 200)); L = rng.uniform(50, 400)
+            d = Point(L, L * rng.choice([0.0, 1e-6, 1e-3, -1e-2])) if rng.random() < 0.5 else Point(L * rng.choice([0.0, 1e-5]), L)
+            ts = sorted(rng.uniform(0.1, 0.9) for _ in range(order - 2))
+            pts = [o] + [o + d * t for t in ts] + [o + d]
+        else: return gen.segment(rng, order=order)[0]
+        return gen.KINDS[order](*pts)
+    return g
+def crossing_partner(rng, a, order):
+    """a curve of the given order through an interior point of a (usually a transversal crossing), at a's scale"""
+    ext = max(abs(p.x - q.x) + abs(p.y - q.y) for p in a.points for q in a.points) or 1.0
+    b = gen.KINDS[order](*[Point(rng.uniform(-ext, ext), rng.uniform(-ext, ext)) for _ in range(order)])
+    d = a.pointAtTime(rng.uniform(0.05, 0.95)) - b.pointAtTime(rng.uniform(0.05, 0.95))
+    return gen.KINDS[order](*[p + d for p in b.points])
+GEN = {'RNG3': g_curve(3), 'RNG4': g_curve(4), 'curve3': g_curve(3), 'curve4': g_curve(4), 'S': g_S, 't': g_t, 'angle': g_angle, 'P': g_P, 'M': g_M, 'seg2': g_seg(2), 'seg3': g_seg(3), 'seg4': g_seg(4), 'BB': g_BB, 'OS': g_OS, 'B': g_B,
        'OP': g_OP, 'OBB': g_OBB, 'LP': g_LP, 'LP2': g_LP2, 'LS': g_LS, 'size': g_size, 'sup': g_sup,
        'PATH': g_path, 'pt': g_pt, 'EDGE': g_edge, 'SPATH': g_spath,
        'sseg2': g_sseg(2), 'sseg3': g_sseg(3), 'sseg4': g_sseg(4), 'nsamp': g_nsamp, 'degree': g_degree,
        'SREP': g_srep, 'LXY': g_lxy, 'PCLOSED': g_pclosed, 'LNODE': g_nodelist,
        'DECK': g_deck, 'COND': g_cond, 'SHAPES': g_shapes, 'SPLITPATH': g_splitpath, 'SPLITLIST': lambda rng: []}
-KIND = {'t': 'S', 'angle': 'S', 'size': 'S', 'sup': 'S', 'LP2': 'LP', 'sseg2': 'seg2', 'sseg3': 'seg3', 'sseg4': 'seg4', 'nsamp': 'S', 'degree': 'S', 'pt': 'S', 'SPATH': 'PATH', 'SPLITPATH': 'PATH'}
+KIND = {'curve3': 'seg3', 'curve4': 'seg4', 't': 'S', 'angle': 'S', 'size': 'S', 'sup': 'S', 'LP2': 'LP', 'sseg2': 'seg2', 'sseg3': 'seg3', 'sseg4': 'seg4', 'nsamp': 'S', 'degree': 'S', 'pt': 'S', 'SPATH': 'PATH', 'SPLITPATH': 'PATH'}
 
 
 class K:
     """one kernel: coq name, argument generator kinds (receiver first), python callable, return kind, tolerance"""
-    def __init__(self, coq, args, py, ret, tol=None, libm=False, clone=True, term=None, name=None):
+    def __init__(self, coq, args, py, ret, tol=None, libm=False, clone=True, term=None, name=None, termv=None):
         self.coq, self.args, self.py, self.ret, self.tol, self.libm, self.clone = coq, args, py, ret, tol, libm, clone
+        self.termv = termv      # termv(ops, cargs, python value): the Coq term when it depends on what the Python run recorded
         # term(ops, cargs): the Coq term when it is not just `coq ops cargs` (e.g. a default argument filled in);
         # name: the key in KERNELS when one generated definition is exercised by more than one kernel
         self.term, self.name = term, name or coq
@@ -527,6 +577,119 @@ SPLIT_KERNELS = [
     K('Path_addExtremes', ['SPLITPATH'], lambda p: p.addExtremes(), 'OLSEG', term=fuelled('Path_addExtremes')),
 ]
 NEW_KERNELS3 = NODELIST_KERNELS + SWEEP_KERNELS + SPLIT_KERNELS
+# round 4 -- utils/intersectionsmixin.py (Gen/CurveCurve.v): the recursion runs on FUEL4 nested calls (Python needs far fewer: the boxes
+# shrink below the area threshold, or the ranges collapse and `assert lo < hi` fails, long before); the abstract format parameter
+# is instantiated with the exact binary64 key of Hand/CurveCurve.v ("%.2f" % x as (class, hundredths), compared by keyF_eqb)
+FUEL4 = 200
+def keyed(name): return lambda ops, cargs: f'{name} {ops} key2F keyF_eqb {FUEL4} {cargs}'
+def _asserting(f):
+    def g(*a):
+        try: return f(*a)
+        except AssertionError: return PyRaised('PyAssertionError')
+    return g
+class Dispatched:
+    """the result of Segment.intersections, and whether the generated definition for this pair of classes carries the effects"""
+    def __init__(self, value, fuelled): self.value, self.fuelled = value, fuelled
+    def __repr__(self): return repr(self.value)
+def _intersections(a, b, limited):
+    r = _asserting(lambda: a.intersections(b, limited=limited))()
+    return Dispatched(r, len(a.points) > 2 and len(b.points) > 2)
+CURVECURVE_KERNELS = []
+for _a in ('seg3', 'seg4'):
+    for _b in ('seg3', 'seg4'):
+        _n = f'{CLS[_a]}__curve_curve_intersections_t_{CLS[_b]}'
+        CURVECURVE_KERNELS.append(K(_n, ['RNG' + _a[3], 'RNG' + _b[3]], _asserting(lambda a, b: [tuple(t) for t in a._curve_curve_intersections_t(b)]), 'OXLTT', term=keyed(_n)))
+        _n = f'{CLS[_a]}__curve_curve_intersections_{CLS[_b]}'
+        CURVECURVE_KERNELS.append(K(_n, ['curve' + _a[3], 'curve' + _b[3]], _asserting(lambda a, b: a._curve_curve_intersections(b)), 'OXLIX', term=keyed(_n)))
+for _a in ('seg2', 'seg3', 'seg4'):
+    for _b in ('seg2', 'seg3', 'seg4'):
+        _n = f'{CLS[_a]}_intersections_{CLS[_b]}'
+        _ka = _a if _a == 'seg2' else 'curve' + _a[3]
+        _kb = _b if _b == 'seg2' else 'curve' + _b[3]
+        CURVECURVE_KERNELS.append(K(_n, [_ka, _kb, 'B'], _intersections, 'LIX4', libm=True, term=keyed(_n) if 'seg2' not in (_a, _b) else None))
+# round 4 -- utils/curvedistance.py (Gen/MinDist.v).  The recursion runs on FUEL_MD nested calls.
+#   curvedistance_minDist: the generated control flow, for the nine pairs of classes: len(bez1), len(bez2) from the pair; S from the
+#     table of the S(u, v) values the real run computed (bit-exact keys; a missing key is a NaN: a model that left the real run's path
+#     cannot agree by accident -- `**` inside S is libm pow, which the generated powi does not reproduce bit for bit); D the GENERATED
+#     table (exact arithmetic only).  Compared: (distance, t1, t2) of c.minDist() and the final c.bestAlpha / c.iterations.
+#   curvedistance_curveDistance_X_Y: the wrappers, with the GENERATED S as well; on the Python side `**` in basis_function (libm pow) is
+#     replaced by the repeated multiplication the generated S performs (_curve_distance): then every operation is exact and the
+#     comparison is bit for bit.
+FUEL_MD = 100
+class Finder:
+    def __init__(self, value, best, iterations, s_table): self.value, self.best, self.iterations, self.s_table = value, best, iterations, s_table
+    def __repr__(self): return f'{self.value} best={self.best} iterations={self.iterations}'
+def _min_dist(a, b):
+    from props import C20
+    with C20.Recorder() as rec:
+        from beziers.utils.curvedistance import MinimumCurveDistanceFinder
+        c = MinimumCurveDistanceFinder(a, b)
+        try: val = C20.limited(lambda: c.minDist(), 2.0)
+        except C20.Timeout: raise ValueError('timeout')          # (dropped: the unpruned recursion is exponential for some touching operands)
+    if c.iterations > 1500 or rec.maxdepth + 1 > FUEL_MD: raise ValueError('too deep')
+    return Finder(tuple(float(x) for x in val), c.bestAlpha, c.iterations, rec.s_table())
+def _powi(x, k):
+    """Base/Ops.v powi: x ** k by repeated multiplication from the left"""
+    if k == 0: return 1
+    r = x
+    for _ in range(k - 1): r = r * x
+    return r
+def _curve_distance(a, b):
+    """the real curveDistance, with the one operation the generated S cannot reproduce bit for bit -- `**` in basis_function, libm pow --
+    replaced by what Gen/CurveDist.v computes instead (powi); everything else (minDist, the caches, S, D, C_rk, ..) is the library's own code"""
+    from props import C20
+    from beziers.utils import curvedistance as CD
+    orig = CD.basis_function
+    CD.basis_function = lambda n, i, u: CD.C(i, n) * _powi(1 - u, n - i) * _powi(u, i)
+    try:
+        with C20.Recorder() as rec:
+            try: val = C20.limited(lambda: CD.curveDistance(a, b), 2.0)
+            except C20.Timeout: raise ValueError('timeout')
+    finally:
+        CD.basis_function = orig
+    if rec.finder.iterations > 1500 or rec.maxdepth + 1 > FUEL_MD: raise ValueError('too deep')
+    return tuple(float(x) for x in val)
+def g_mdseg(order):
+    def g(rng): return gen.KINDS[order](*[Point(rng.uniform(-300, 300), rng.uniform(-300, 300)) for _ in range(order)])
+    return g
+for _o in (2, 3, 4): GEN[f'md{_o}'] = g_mdseg(_o); KIND[f'md{_o}'] = f'seg{_o}'
+MINDIST_KERNELS = []
+for _a in (2, 3, 4):
+    for _b in (2, 3, 4):
+        MINDIST_KERNELS.append(K('curvedistance_minDist', [f'md{_a}', f'md{_b}'], _min_dist, 'MINDIST', name=f'curvedistance_minDist@{_a}x{_b}',
+            termv=(lambda a_, b_: lambda ops, cargs, val: f'curvedistance_minDist {ops} {a_} {b_} (s_lookup4 {val.s_table}) (table_get (curvedistance_D_{a_}_{b_} {ops} {cargs})) {FUEL_MD} (None, 0%Z) (0%float, 1%float) (0%float, 1%float) 0x1.0624dd2f1a9fcp-10%float')(_a, _b)))
+        _n = f'curvedistance_curveDistance_{CLS["seg%d" % _a]}_{CLS["seg%d" % _b]}'
+        MINDIST_KERNELS.append(K(_n, [f'md{_a}', f'md{_b}'], _curve_distance, 'OXSSS',
+                                 term=(lambda nm: lambda ops, cargs: f'{nm} {ops} {FUEL_MD} {cargs}')(_n)))
+# round 4 -- path/__init__.py (Gen/Winding.v): closed paths and query points of tools/props/C11.py (random / star-shaped / bowtie / near-vertical /
+# far from the origin; queries inside, outside, level with nodes and crossings), sometimes an empty path (addMargin adds a Point to None)
+def _none_raising(f):
+    def g(*a):
+        import io, contextlib
+        try:
+            with contextlib.redirect_stdout(io.StringIO()): return f(*a)
+        except (TypeError, AttributeError): return PyRaised('PyNoneError')
+    return g
+def g_wpath(rng):
+    from props import C11
+    from beziers.path import BezierPath
+    r = rng.random()
+    if r < 0.04: cps = []
+    elif r < 0.80: cps = C11.gen_path(rng)[1]
+    elif r < 0.88: cps = C11.gen_bowtie(rng)[1]
+    elif r < 0.92: cps = C11.gen_near_vertical(rng)[1]
+    elif r < 0.96: cps = C11.gen_far_offset(rng)[1]
+    else: cps = C11.gen_huge(rng)[1]
+    path = BezierPath.fromSegments(C11.to_segments(cps)) if cps else BezierPath.fromSegments([])
+    path._cps = cps
+    return path
+GEN['WPATH'] = g_wpath; KIND['WPATH'] = 'PATH'
+WINDING_KERNELS = [
+    K('Path_bounds', ['WPATH'], _none_raising(lambda p: p.bounds()), 'XOBB'),
+    K('Path_windingNumberOfPoint', ['WPATH', 'P'], _none_raising(lambda p, q: p.windingNumberOfPoint(q)), 'XZ', libm=True),
+    K('Path_pointIsInside', ['WPATH', 'P'], _none_raising(lambda p, q: p.pointIsInside(q)), 'XB', libm=True),
+]
+NEW_KERNELS4 = CURVECURVE_KERNELS + MINDIST_KERNELS + WINDING_KERNELS
 
 KERNELS = {k.name: k for k in (
     [K('Point___add__', ['P', 'P'], lambda a, b: a + b, 'P'), K('Point___sub__', ['P', 'P'], lambda a, b: a - b, 'P'),
@@ -564,7 +727,7 @@ KERNELS = {k.name: k for k in (
      K('Quad_toCubicBezier', ['seg3'], lambda s: s.toCubicBezier(), 'seg4'),
      K('Cubic_findExtremes_False', ['seg4'], lambda s: s.findExtremes(), 'LS'),
      K('Cubic_hasLoop', ['seg4'], lambda s: s.hasLoop, 'OSS'),
-     ] + seg_kernels('seg2') + seg_kernels('seg3') + seg_kernels('seg4') + NEW_KERNELS + NEW_KERNELS2 + NEW_KERNELS3)}
+     ] + seg_kernels('seg2') + seg_kernels('seg3') + seg_kernels('seg4') + NEW_KERNELS + NEW_KERNELS2 + NEW_KERNELS3 + NEW_KERNELS4)}
 
 # comparison of flattened edges: the line and its _orig (None, or the curve it was cut from, class included)
 PREAMBLE = '''Definition gsegment_feq (a b : segment float) : bool :=
@@ -576,13 +739,18 @@ Definition gbox_feq (a b : bbox float) : bool := pt_feq (bl a) (bl b) && pt_feq 
 Definition gshape_feq (a b : shape float) : bool := Nat.eqb (fst a) (fst b) && gbox_feq (snd a) (snd b).
 Definition gitem_feq (a b : shape float * bbox float) : bool := gshape_feq (fst a) (fst b) && gbox_feq (snd a) (snd b).
 Definition gpair_feq (a b : shape float * shape float) : bool := gshape_feq (fst a) (fst b) && gshape_feq (snd a) (snd b).
+Fixpoint s_lookup4 (tbl : list (float * float * float)) (u v : float) : float :=
+  match tbl with [] => PrimFloat.nan | (u', v', r) :: rest => if fbits_eq u u' && fbits_eq v v' then r else s_lookup4 rest u v end.
 '''
 IMPORTS = ['Gen.Utils', 'Gen.Point', 'Gen.Affine', 'Gen.BBox', 'Gen.Line', 'Gen.Quad', 'Gen.Cubic', 'Gen.CurveDist', 'Gen.Shapes', 'Gen.Fit', 'Gen.Sample',
-           'Gen.Nodelist', 'Gen.Sweep', 'Gen.Split']
+           'Gen.Nodelist', 'Gen.Sweep', 'Gen.Split', 'Gen.CurveCurve', 'Gen.MinDist', 'Gen.Winding', 'Hand.CurveCurve']      # (Hand.CurveCurve: key2F / keyF_eqb)
 
 
 def clone_arg(kind, v):
     if kind in ('seg2', 'seg3', 'seg4'): return v.clone()
+    if kind in ('RNG3', 'RNG4'):
+        c = v.clone(); c._range = list(v._range)
+        return c
     if kind == 'M': return AffineTransformation([list(r) for r in v.matrix])
     if kind in ('P', 'OP') and v is not None: return v.clone()
     if kind == 'LP': return [x.clone() for x in v]
@@ -636,6 +804,32 @@ def special_args(k, rng, args):
         if data and rng.random() < 0.5:   # data near the curve
             args[1] = [bez.pointAtTime(rng.random()) + Point(rng.uniform(-2, 2), rng.uniform(-2, 2)) for _ in data]
     if name == 'Path_splitAtPoints': args[1] = g_splitlist_for(rng, args[0])
+    if name in ('Path_windingNumberOfPoint', 'Path_pointIsInside') and getattr(args[0], '_cps', None):
+        from props import C11
+        q = C11.gen_queries(rng, C11.Geo(args[0]._cps), 1)[0][1]
+        args[1] = Point(*q)
+    if name.startswith('curvedistance_minDist') or name.startswith('curvedistance_curveDistance'):
+        # round 4: the operand families of tools/props/C20.py (disjoint, touching, crossing, identical, overlapping, degenerate, near, far-gap)
+        from props import C20
+        a, b = C20.seg_pair(rng, len(args[0].points), len(args[1].points), False, rng.choice(C20.MODES))
+        if len(a.points) == len(args[0].points) and len(b.points) == len(args[1].points): args[0], args[1] = C20.fl(a), C20.fl(b)
+    if '_curve_curve_intersections' in name or '_intersections_' in name:
+        # round 4: usually the second operand crosses the first; rarely coordinates ~1e30 (the boxes never get small: AssertionError);
+        # for the recursion itself sometimes pieces with hand-set ranges
+        a, b = args[0], args[1]
+        r = rng.random()
+        if r < 0.04 and len(a.points) > 2 and len(b.points) > 2:
+            a = gen.KINDS[len(a.points)](*[Point(rng.uniform(-1e30, 1e30), rng.uniform(-1e30, 1e30)) for _ in a.points])
+            b = crossing_partner(rng, a, len(b.points))
+        elif r < 0.75:
+            if len(a.points) == 2 and len(b.points) > 2:
+                m = b.pointAtTime(rng.uniform(0.1, 0.9)); d = Point(rng.uniform(-300, 300), rng.uniform(-300, 300)); u = rng.uniform(0.2, 0.8)
+                a = Line(m + d * -u, m + d * (1 - u))
+            else: b = crossing_partner(rng, a, len(b.points))
+        if name.split('_')[2:5] == ['curve', 'curve', 'intersections'] and name.split('_')[5:6] == ['t'] and rng.random() < 0.2:
+            for c in (a, b):
+                lo = rng.choice([0.0, 0.25, 0.5, rng.random() * 0.9]); c._range = [lo, lo + rng.choice([0.5, 0.25, 0.1, 2.0 ** -20, 2.0 ** -51]) * (1 - lo)]
+        args[0], args[1] = a, b
     if name == 'BBox_extend_Point' and args[0].bl is not None and rng.random() < 0.6:
         b = args[0]   # points on the edges / at the corners / just inside and outside
         xs = [b.bl.x, b.tr.x, (b.bl.x + b.tr.x) / 2, b.bl.x - 1.0, b.tr.x + 0.5, rng.uniform(b.bl.x - 3, b.tr.x + 3)]
@@ -665,13 +859,14 @@ def cross_check(pid, names, n_per, rng, tag='kern'):
             px.take()
             try:
                 val = k.py(*[clone_arg(kd, v) for kd, v in zip(kinds, args)])
-            except (ZeroDivisionError, ValueError, OverflowError) as e:
+            except (ZeroDivisionError, ValueError, OverflowError, RecursionError) as e:
                 raised += 1
                 continue
             tbl = px.take()
             ops = f'(FOpsT {vlib.clibm(tbl)})' if k.libm else 'FOps'
             try:
-                cases.append(cmp_expr(k.ret, k.term(ops, cargs) if k.term else f'{k.coq} {ops} {cargs}', val, k.tol))
+                got = k.termv(ops, cargs, val) if k.termv else (k.term(ops, cargs) if k.term else f'{k.coq} {ops} {cargs}')
+                cases.append(cmp_expr(k.ret, got, val, k.tol))
             except TypeError:
                 raised += 1; continue
             meta.append({'kernel': nm, 'args': [repr(a) if not hasattr(a, 'matrix') else a.matrix for a in args], 'python': repr(val)[:200]})
